@@ -4,12 +4,21 @@ from __future__ import annotations
 
 import importlib
 import json
+import resource
 import sys
+
+# No honest shard needs more than a few hundred MB.  A runaway (of the code under test or of a generator of mine) must
+# end as a MemoryError / dead worker = INCONCLUSIVE for that shard, not take the machine down with all other workers.
+ADDRESS_SPACE_LIMIT = 4 << 30
 
 
 def main() -> int:
     module, func, inp, out = sys.argv[1:5]
     sys.setrecursionlimit(20000)
+    try:
+        resource.setrlimit(resource.RLIMIT_AS, (ADDRESS_SPACE_LIMIT, ADDRESS_SPACE_LIMIT))
+    except (ValueError, OSError):
+        pass
     with open(inp, encoding="utf-8") as fd:
         shard = json.load(fd)
     mod = importlib.import_module(module)
